@@ -192,7 +192,17 @@ func runC18(t *sim.T, tier string) *sim.Violation {
 				}
 			}
 		}
-		stIn = append(stIn, m.Feed.Zip(gen.DrawZipOpts(t, len(m.Feed.Tables))))
+		z := m.Feed.Zip(gen.DrawZipOpts(t, len(m.Feed.Tables)))
+		if t.Chance(1, 8) {
+			// a member that cannot be opened at all (unsupported method, encrypted flag, bad sizes): open-error paths
+			if nz, d := gen.ZipHeaderFault(t, z); nz != nil {
+				z = nz
+				t.Logf("shared archive %d fault: %s", i, d)
+				t.Probe("faulted-shared-archive")
+				staticHeavy = true
+			}
+		}
+		stIn = append(stIn, z)
 	}
 	snapRT := make([][]byte, len(rtIn))
 	for i := range rtIn {
